@@ -740,11 +740,17 @@ def _options_forwarded(ctx, rule):
     return c14.r13_options_forwarded(ctx, rule)
 
 
+def _loader_stateless(ctx, rule):
+    # the emitted sequence is a function of the ruleset and the flags only if the loader keeps nothing between two loads (seed
+    # C01-k: a module-level cache of the terminals keyed by the ruleset directory alone, so the second load ignored --all_lower)
+    from . import c14
+    return c14.r8_loader_stateless(ctx, rule)
+
 def rules(tier):
     return [('C01.R1', r1_heap_order), ('C01.R2', r2_heap_ownership), ('C01.R3', r3_prob_fold),
             ('C01.R4', r4_prob_pt_coupling), ('C01.R5', r5_successor), ('C01.R6', r6_loader_order),
             ('C01.R7', r7_determinism), ('C01.R8', r8_uniform_scale),
-            ('C01.R9', r9_exact_float_discipline), ('C01.R10', _mask_insertion), ('C01.R11', r11_sections_not_aliased), ('C01.R12', _options_forwarded)]
+            ('C01.R9', r9_exact_float_discipline), ('C01.R10', _mask_insertion), ('C01.R11', r11_sections_not_aliased), ('C01.R12', _options_forwarded), ('C01.R13', _loader_stateless)]
 
 
 META = {
